@@ -31,7 +31,7 @@ def run(ctx, chk):
     A = spec("arith")
     P = ctx.program
     G = ctx.gram("interpreter")
-    chk.rule("C03.R1", "a zero divisor never reaches a division (zero test dominates Div/Rem)", floor=8)
+    chk.rule("C03.R1", "a zero divisor never reaches a division (zero test dominates Div/Rem)", floor=4)
     chk.rule("C03.R2", "signed division cannot overflow (MIN / -1)", floor=2)
     chk.rule("C03.R3", "no quotient is silently truncated: narrowing casts of Div results are lossless or guarded by a dividend test", floor=4)
     # the four division helpers + every alternative of the production that calls them (however many the grammar has)
@@ -76,6 +76,8 @@ def run(ctx, chk):
                     chk.violation(rid, unit, e.akind, f"{e.akind} can fail in {fn['name']}", f"{where.rsplit(chr(58),1)[0]}:{e.line}", e.witness)
                 else:
                     chk.undecided_(rid, u, "cannot exclude the failing side")
+            if m in ("div", "idiv") and not any(e.kind == "assert" and e.akind in ("DivisionByZero", "RemainderByZero") for e in s.I.events):
+                chk.ok("C03.R1", f"{unit}:no-raw-division", "no unchecked Div/Rem operation in the helper (checked_div / checked_rem)")
             # R3 lossy narrowing of Div results
             if m in ("div", "idiv"):
                 seen = 0
